@@ -368,7 +368,8 @@ package bitcoin_reader
 //@ iface github.com/tokenized/bitcoin_reader.TxProcessor.ProcessTx
 //@   params p, ctx, tx
 //@   ensures ghostv("processed", 0) == old(ghostv("processed", 0)) + 1
-//@   modifies ghost("processed")
+//@   ensures ghostv("relevant", 0) == old(ghostv("relevant", 0)) + ite(result0, 1, 0)
+//@   modifies ghost("processed"), ghost("relevant")
 //@ iface github.com/tokenized/bitcoin_reader.TxSaver.SaveTx
 //@   params s, ctx, tx
 //@   ensures ghostv("saved", 0) == old(ghostv("saved", 0)) + 1
@@ -379,12 +380,12 @@ package bitcoin_reader
 //@   requires m != nil && m.txChannel != nil
 //@   ensures [C06.process-each-once] result == nil && old(m.txProcessor) != nil ==> ghostv("processed", 0) - old(ghostv("processed", 0)) == recvd(m.txChannel) - old(recvd(m.txChannel))
 //@   ensures [C06.save-at-most-once] ghostv("saved", 0) - old(ghostv("saved", 0)) <= ghostv("processed", 0) - old(ghostv("processed", 0))
-//@   modifies allheap, ghost("processed"), ghost("saved"), allchans(*wire.MsgTx)
+//@   modifies allheap, ghost("processed"), ghost("relevant"), ghost("saved"), allchans(*wire.MsgTx)
 //@   loop 1
 //@     modifies allchans(*wire.MsgTx)
 //@     invariant ghostv("processed", 0) == atentry(ghostv("processed", 0)) && ghostv("saved", 0) == atentry(ghostv("saved", 0)) && m.txChannel == atentry(m.txChannel)
 //@   loop 2
-//@     modifies allchans(*wire.MsgTx), ghost("processed"), ghost("saved")
+//@     modifies allchans(*wire.MsgTx), ghost("processed"), ghost("relevant"), ghost("saved")
 //@     invariant ghostv("processed", 0) - atentry(ghostv("processed", 0)) == recvd(m.txChannel) - atentry(recvd(m.txChannel)) && ghostv("saved", 0) - atentry(ghostv("saved", 0)) <= ghostv("processed", 0) - atentry(ghostv("processed", 0)) && m.txChannel == atentry(m.txChannel) && txProcessor != nil
 
 // GetTxRequests: a received transaction is never requested again; a returned txid was announced by this node.
@@ -406,3 +407,111 @@ package bitcoin_reader
 //@     modifies allof(TxData.LastRequested), allof(TxData.NodeIDs), allof(TxData.RWMutex), allelems(uuid.UUID), elems(result)
 //@     invariant sameregion(result) && txmOK(m) && 0 <= index && index < 256 && txMap == m.txMaps[index]
 //@     invariant forall(i, 0, len(result), exists(j, 0, 256, has(m.txMaps[j].txs, result[i]) && m.txMaps[j].txs[result[i]] != nil && m.txMaps[j].txs[result[i]].Received == nil))
+
+// Block downloader (C16, C04). Each function is one step of the interleaving; the flags are read and written inside
+// one stateLock critical section (lock exclusion trusted). Started and Complete have capacity 2 (NewBlockDownloader):
+// HandleBlock sends exactly one value on each, Cancel and Stop together send at most one on each (only the call
+// that finds isCancelled false sends, and it sets the flag inside the same critical section), so no send can block.
+
+//@ pure func bdOK(bd *BlockDownloader) bool = bd != nil && bd.Started != nil && bd.Complete != nil && !closed(bd.Started) && !closed(bd.Complete)
+
+//@ func NewBlockDownloader
+//@   ensures [C16.capacity] bdOK(result) && fresh(result) && chancap(result.Started) == 2 && chancap(result.Complete) == 2 && sent(result.Started) == 0 && sent(result.Complete) == 0
+//@   ensures [C16.initial-flags] !result.isCancelled && !result.isStarted && !result.isComplete && result.hash == hash && result.txProcessor == txProcessor && result.blockTxManager == blockTxManager
+//@   modifies nothing
+
+//@ iface github.com/tokenized/bitcoin_reader.BlockRequestCanceller.CancelBlockRequest
+//@   params c, ctx, hash
+//@   ensures ghostv("cancelFoundStarted", 0) == ite(result, 1, 0)
+//@   modifies allof(BitcoinNode.blockReader), allof(BitcoinNode.blockOnStop), allof(BitcoinNode.blockHandler), allof(BitcoinNode.Mutex), ghost("cancelFoundStarted")
+
+//@ func (*BlockDownloader).wasCancelled
+//@   requires bd != nil
+//@   ensures result == bd.isCancelled
+//@   modifies bd.stateLock
+
+//@ func (*BlockDownloader).Stop
+//@   requires bdOK(bd)
+//@   ensures [C16.stop-signals-once] sent(bd.Started) == old(sent(bd.Started)) + ite(old(!bd.isComplete && !bd.isCancelled && !bd.isStarted), 1, 0) && sent(bd.Complete) == old(sent(bd.Complete)) + ite(old(!bd.isComplete && !bd.isCancelled && !bd.isStarted), 1, 0)
+//@   ensures [C16.stop-result-cancelled] old(!bd.isComplete && !bd.isCancelled && !bd.isStarted) ==> chanlog(bd.Complete, old(sent(bd.Complete))) == errBlockDownloadCancelled
+//@   ensures [C16.stop-marks-cancelled] old(!bd.isComplete) ==> bd.isCancelled
+//@   ensures [C16.flags-monotone] (old(bd.isCancelled) ==> bd.isCancelled) && bd.isComplete == old(bd.isComplete) && bd.isStarted == old(bd.isStarted)
+//@   modifies bd.isCancelled, bd.stateLock, bd.Mutex, chanof(bd.Started), chanof(bd.Complete)
+//@   safety [C16]
+
+//@ func (*BlockDownloader).Cancel
+//@   requires bdOK(bd)
+//@   ensures [C16.cancel-started-once] sent(bd.Started) == old(sent(bd.Started)) + ite(old(!bd.isComplete && !bd.isCancelled && !bd.isStarted), 1, 0)
+//@   ensures [C16.cancel-complete-once] sent(bd.Complete) == old(sent(bd.Complete)) + ite(old(!bd.isComplete && !bd.isCancelled && bd.canceller != nil) && ghostv("cancelFoundStarted", 0) == 0, 1, 0)
+//@   ensures [C16.cancel-result-cancelled] sent(bd.Complete) > old(sent(bd.Complete)) ==> chanlog(bd.Complete, old(sent(bd.Complete))) == errBlockDownloadCancelled
+//@   ensures [C16.cancel-marks-cancelled] old(!bd.isComplete) ==> bd.isCancelled
+//@   ensures [C16.flags-monotone] (old(bd.isCancelled) ==> bd.isCancelled) && bd.isComplete == old(bd.isComplete) && bd.isStarted == old(bd.isStarted)
+//@   modifies bd.isCancelled, bd.stateLock, bd.Mutex, chanof(bd.Started), chanof(bd.Complete), allof(BitcoinNode.blockReader), allof(BitcoinNode.blockOnStop), allof(BitcoinNode.blockHandler), allof(BitcoinNode.Mutex), ghost("cancelFoundStarted")
+//@   safety [C16]
+
+// Merkle tree of the dependency (github.com/tokenized/pkg/merkle_proof). AddMerkleProof/NewMerkleProof are analysed
+// from their source (inlined); AddHash and FinalizeMerkleProofs (SHA-256 tree arithmetic) are trusted: AddHash counts
+// one more leaf and may set the Index of held proofs; FinalizeMerkleProofs returns the held proofs and publishes the
+// computed root and leaf count in ghost cells so that later obligations can refer to them.
+//@ trusted func (*github.com/tokenized/pkg/merkle_proof.MerkleTree).AddHash
+//@   requires t != nil
+//@   ensures t.count == old(t.count) + 1
+//@   modifies t.layers, t.count, allof(merkle_proof.MerkleProof.Index)
+//@ trusted func (github.com/tokenized/pkg/merkle_proof.MerkleTree).FinalizeMerkleProofs
+//@   ensures result1 == t.merkleProofs && ghostv("merkleRoot", 0) == result0 && ghostv("merkleCount", 0) == t.count
+//@   modifies allof(merkle_proof.MerkleProof.Path), allof(merkle_proof.MerkleProof.root), allof(merkle_proof.MerkleProof.depth), allof(merkle_proof.MerkleProof.DuplicatedIndexes), allof(merkle_proof.MerkleProof.MerkleRoot), ghost("merkleRoot"), ghost("merkleCount")
+
+//@ iface github.com/tokenized/bitcoin_reader.TxProcessor.ProcessCoinbaseTx
+//@   params p, ctx, blockHash, tx
+//@   ensures ghostv("coinbase", 0) == old(ghostv("coinbase", 0)) + 1
+//@   modifies ghost("coinbase")
+// A confirmation must carry a proof for exactly that txid, bound to a header that hashes to the block hash given
+// and whose merkle root is the root computed over the received transactions.
+//@ iface github.com/tokenized/bitcoin_reader.TxProcessor.ConfirmTx
+//@   params p, ctx, txid, blockHeight, merkleProof
+//@   requires [C04.confirm-proof-for-txid] merkleProof != nil && merkleProof.TxID != nil && *merkleProof.TxID == txid
+//@   requires [C04.confirm-proof-bound-to-header] merkleProof.BlockHeader != nil && merkleProof.BlockHash != nil && *merkleProof.BlockHash == hashOf(merkleProof.BlockHeader) && merkleProof.BlockHeader.MerkleRoot == ghostv("merkleRoot", 0)
+//@   ensures ghostv("confirmed", 0) == old(ghostv("confirmed", 0)) + 1
+//@   modifies ghost("confirmed")
+//@ iface github.com/tokenized/bitcoin_reader.BlockTxManager.AppendBlockTxIDs
+//@   params b, ctx, blockHash, txids
+//@   ensures ghostv("appended", 0) == old(ghostv("appended", 0)) + 1
+//@   modifies ghost("appended")
+
+//@ pure func blockEvents() int = ghostv("coinbase", 0) + ghostv("confirmed", 0) + ghostv("appended", 0)
+
+//@ func (*BlockDownloader).handleBlock
+//@   requires bd != nil && header != nil && bd.txProcessor != nil && bd.blockTxManager != nil && txChannel != nil
+//@   requires [C04.only-requested-block] hashOf(header) == bd.hash
+//@   ensures [C04.gated-by-count-and-root] blockEvents() != old(blockEvents()) ==> recvd(txChannel) - old(recvd(txChannel)) == txCount && ghostv("merkleCount", 0) == txCount && ghostv("merkleRoot", 0) == header.MerkleRoot
+//@   ensures [C04.order] ghostv("coinbase", 0) <= old(ghostv("coinbase", 0)) + 1 && ghostv("appended", 0) <= old(ghostv("appended", 0)) + 1 && (ghostv("confirmed", 0) > old(ghostv("confirmed", 0)) ==> ghostv("coinbase", 0) == old(ghostv("coinbase", 0)) + 1) && (ghostv("appended", 0) > old(ghostv("appended", 0)) ==> ghostv("confirmed", 0) - old(ghostv("confirmed", 0)) == ghostv("relevant", 0) - old(ghostv("relevant", 0)))
+//@   ensures [C04.success-confirms-all-relevant] result == nil ==> ghostv("coinbase", 0) == old(ghostv("coinbase", 0)) + 1 && ghostv("appended", 0) == old(ghostv("appended", 0)) + 1 && ghostv("confirmed", 0) - old(ghostv("confirmed", 0)) == ghostv("relevant", 0) - old(ghostv("relevant", 0))
+//@   modifies bd.stateLock, bd.Mutex, chanof(txChannel), typesof(merkle_proof), allelems(*merkle_proof.MerkleProof), allelems(bitcoin.Hash32), ghost("processed"), ghost("relevant"), ghost("coinbase"), ghost("confirmed"), ghost("appended"), ghost("merkleRoot"), ghost("merkleCount")
+//@   safety [C04]
+//@   loop 1
+//@     modifies chanof(txChannel), bd.stateLock, ghost("processed"), ghost("relevant"), merkleTree.count, merkleTree.layers, merkleTree.merkleProofs, allof(merkle_proof.MerkleProof.Index), allelems(*merkle_proof.MerkleProof), allelems(bitcoin.Hash32)
+//@     invariant i >= 0 && i == recvd(txChannel) - atentry(recvd(txChannel)) && merkleTree != nil && merkleTree.count == i && blockEvents() == atentry(blockEvents())
+//@     invariant len(blockTxIDs) == ghostv("relevant", 0) - atentry(ghostv("relevant", 0)) && len(merkleTree.merkleProofs) == len(blockTxIDs)
+//@     invariant forall(k, 0, len(blockTxIDs), merkleTree.merkleProofs[k] != nil && merkleTree.merkleProofs[k].TxID != nil && *merkleTree.merkleProofs[k].TxID == blockTxIDs[k])
+//@   loop 2
+//@     modifies chanof(txChannel)
+//@     invariant blockEvents() == atentry(blockEvents())
+//@   loop 3
+//@     modifies chanof(txChannel)
+//@     invariant blockEvents() == atentry(blockEvents())
+//@   loop 4
+//@     modifies allof(merkle_proof.MerkleProof.BlockHeader), allof(merkle_proof.MerkleProof.BlockHash), ghost("confirmed")
+//@     invariant (-1 <= rangeindex && rangeindex < len(blockTxIDs)) || (len(blockTxIDs) == 0 && rangeindex == -1)
+//@     invariant ghostv("confirmed", 0) - atentry(ghostv("confirmed", 0)) == rangeindex + 1
+
+// HandleBlock: exactly one Started and one Complete signal per call on every path; a header that does not hash to the
+// requested block reaches neither the processor nor the block-tx manager and completes with ErrWrongBlock.
+//@ func (*BlockDownloader).HandleBlock
+//@   requires bdOK(bd) && header != nil && bd.txProcessor != nil && bd.blockTxManager != nil && txChannel != nil
+//@   ensures [C16.handler-signals-once] sent(bd.Started) == old(sent(bd.Started)) + 1 && sent(bd.Complete) == old(sent(bd.Complete)) + 1
+//@   ensures [C04.wrong-block-refused] !old(bd.isCancelled) && hashOf(header) != old(bd.hash) ==> result == nil && cause(chanlog(bd.Complete, old(sent(bd.Complete)))) == ErrWrongBlock && blockEvents() == old(blockEvents()) && ghostv("processed", 0) == old(ghostv("processed", 0))
+//@   ensures [C16.cancelled-before-start] old(bd.isCancelled) ==> result == errBlockDownloadCancelled && chanlog(bd.Complete, old(sent(bd.Complete))) == errBlockDownloadCancelled && blockEvents() == old(blockEvents()) && ghostv("processed", 0) == old(ghostv("processed", 0))
+//@   ensures [C16.complete-carries-result] !old(bd.isCancelled) && hashOf(header) == old(bd.hash) ==> chanlog(bd.Complete, old(sent(bd.Complete))) == result
+//@   ensures [C04.gated-by-count-and-root] blockEvents() != old(blockEvents()) ==> recvd(txChannel) - old(recvd(txChannel)) == txCount && ghostv("merkleCount", 0) == txCount && ghostv("merkleRoot", 0) == header.MerkleRoot && hashOf(header) == old(bd.hash)
+//@   modifies bd.stateLock, bd.Mutex, chanof(bd.Started), chanof(bd.Complete), chanof(txChannel), typesof(merkle_proof), allelems(*merkle_proof.MerkleProof), allelems(bitcoin.Hash32), ghost("processed"), ghost("relevant"), ghost("coinbase"), ghost("confirmed"), ghost("appended"), ghost("merkleRoot"), ghost("merkleCount")
+//@   safety [C16]
